@@ -755,8 +755,19 @@ class Builder:
                 if cfg.patches and d['fields'] and g.p(15):
                     d['patch'] = g.int(1, len(d['fields']))
             else:
+                # tags of the sibling unions generated so far (children of the same parent): a name may
+                # legally recur there with another type, and per-family tables must not mix them up
+                sib_tags = []
+                if d['parent'] and (cfg.union_chain_bias or cfg.union_struct_bias):
+                    for sn, sd in self.idx.children(d['parent'][0], d['parent'][1]):
+                        if sd is not d:
+                            sib_tags += [tg_['name'] for tg_ in sd.get('tags', [])]
                 for _ in range(g.int(0 if d['parent'] else 1, cfg.max_fields)):
                     name = self.namer.fresh(TAG_WORDS, taken, extra_ok=lambda s: s not in RESERVED_SNAKE)
+                    reuse = [x for x in sib_tags if x not in taken and x != 'other']
+                    if reuse and g.p(30):
+                        name = g.choice(reuse)
+                        taken.add(name)
                     red_aliases = [('alias', n_, a_['name']) for n_, a_ in self.visible(ns, ('alias',))
                                    if a_['type'] is not None and (self.has_redactor(a_['annots']) or len(a_['annots']) >= 2)] \
                         if cfg.annot_bias else []
